@@ -616,6 +616,19 @@ pub fn c18(ctx: &Ctx) -> Report {
                 hex(&ser),
                 vec![],
             ));
+            // oracle 0: the decoded start cluster and size are what the FAT layout says the slot holds (the
+            // high word counts on FAT32 only; a directory entry with cluster 0 designates the root)
+            rep.oracle_checks += 1;
+            {
+                let lo = u16::from_le_bytes([raw[26], raw[27]]) as u32;
+                let hi = u16::from_le_bytes([raw[20], raw[21]]) as u32;
+                let full = if ft == FatType::Fat32 { (hi << 16) | lo } else { lo };
+                let want_cl = if full == 0 && (raw[11] & 0x10) != 0 { 0xFFFF_FFFC } else { full };
+                let want_size = u32::from_le_bytes([raw[28], raw[29], raw[30], raw[31]]);
+                if cluster_num(&e.cluster) != want_cl || e.size != want_size {
+                    rep.violation("impl-vs-spec", "dirent-decode-fields", &format!("{fts}: slot {} holds start cluster {want_cl:#x} and size {want_size} per the FAT layout but decodes to cluster {:#x}, size {}", hex(&raw), cluster_num(&e.cluster), e.size), J::obj(vec![("ft", J::s(fts)), ("raw", J::s(hex(&raw)))]));
+                }
+            }
             // oracle 1: decode(encode(e)) == e, except for the documented "cluster 0 + directory = root" reading
             rep.oracle_checks += 1;
             let root_alias = cluster_num(&e.cluster) == 0xFFFF_FFFC;
